@@ -4,6 +4,7 @@
 package dsx
 
 import (
+	"sync/atomic"
 	"context"
 	"errors"
 	"sync"
@@ -24,6 +25,7 @@ const (
 )
 
 type Faulty struct {
+	open atomic.Int64 // iterators handed out and not yet stopped
 	storage.OpenFGADatastore
 	mu     sync.Mutex
 	mode   Mode
@@ -67,7 +69,19 @@ func (f *Faulty) step() error {
 type iter struct {
 	f *Faulty
 	storage.TupleIterator
+	stopped atomic.Bool
 }
+
+// Stop counts the first Stop of every iterator handed out (see OpenIterators).
+func (i *iter) Stop() {
+	if i.stopped.CompareAndSwap(false, true) {
+		i.f.open.Add(-1)
+	}
+	i.TupleIterator.Stop()
+}
+
+// OpenIterators is the number of iterators handed out and not yet stopped.
+func (f *Faulty) OpenIterators() int64 { return f.open.Load() }
 
 func (i *iter) Next(ctx context.Context) (*openfgav1.Tuple, error) {
 	if err := i.f.step(); err != nil {
@@ -86,7 +100,8 @@ func (f *Faulty) wrap(it storage.TupleIterator, err error) (storage.TupleIterato
 	if err != nil {
 		return nil, err
 	}
-	return &iter{f, it}, nil
+	f.open.Add(1)
+	return &iter{f: f, TupleIterator: it}, nil
 }
 
 func (f *Faulty) Read(ctx context.Context, store string, filter storage.ReadFilter, o storage.ReadOptions) (storage.TupleIterator, error) {
